@@ -254,7 +254,8 @@ func (r Relation) Join(r2 Relation, keys, leftOutput, rightOutput NamesSlice) Se
 	if rows.IsLiteralTrue() {
 		return True
 	}
-	attrs := append(leftOutput, rightOutput...)
+	// leftOutput may be (a prefix of) the left operand's own heading slice.
+	attrs := append(append(make(NamesSlice, 0, len(leftOutput)+len(rightOutput)), leftOutput...), rightOutput...)
 	if len(attrs) == 2 {
 		at, val := 0, 1
 		if attrs[val] == "@" {
